@@ -305,6 +305,10 @@ type World struct {
 	// id 0 (a caller may supply the zero value of a type). Without it id 0
 	// means "fabricated".
 	zeroOrigin *Origin
+	// FailOn, when set, decides per execution whether an error-declaring
+	// body fails (it receives the spec's static Fail flag); used for
+	// histories in which a function fails in one call and succeeds in another.
+	FailOn func(fi, exec int, specFail bool) bool
 	// NextDefaults, when non-nil, is passed as is (same backing array) as the
 	// default options of the next function built.
 	NextDefaults []am.Arg
@@ -419,7 +423,7 @@ func (w *World) record(fi int, spec *FuncSpec, obs []ArgObs, concs []int, enterN
 		outs[i] = mkAs(l.Type, concs[i], id)
 	}
 	var err error
-	if spec.Fail {
+	if (spec.Fail && w.FailOn == nil) || (w.FailOn != nil && spec.HasErr && w.FailOn(fi, ev.Exec, spec.Fail)) {
 		err = &failErr{fi, ev.Exec}
 		w.errs[err] = ev.Seq
 		ev.Err = err
